@@ -216,18 +216,22 @@ LOST = ("manual edit made after a temporary feature was assigned through an "
 
 
 def edit_after_settemp(evs):
-    """evs: the steps before a refresh; True if, since the refresh before,
-    a temporary feature was assigned through some level l and a manual edit
-    is pending on a level younger than l - made before or after the
-    assignment (which refreshes level l and its ancestors only)"""
+    """evs: the steps before a refresh; True if in some refresh interval so
+    far a temporary feature was assigned through some level l while a manual
+    edit was pending on a level younger than l - made before or after the
+    assignment (which refreshes level l and its ancestors only).  Once such
+    an edit has been lost, the later intervals differ as well."""
     seg = []
-    for e in evs:
-        seg = [] if e["a"] == "rejuvenate" else seg + [e]
-    lv = [e["l"] for e in seg if e["a"] == "settemp"]
-    if not lv:
-        return False
-    return any(e["a"] in ("exclude", "include") and e["l"] > min(lv)
-               for e in seg)
+    for e in list(evs) + [{"a": "rejuvenate"}]:
+        if e["a"] != "rejuvenate":
+            seg.append(e)
+            continue
+        lv = [x["l"] for x in seg if x["a"] == "settemp"]
+        if lv and any(x["a"] in ("exclude", "include") and x["l"] > min(lv)
+                      for x in seg):
+            return True
+        seg = []
+    return False
 
 
 def signature(steps, i, obs, exp):
@@ -240,12 +244,13 @@ def signature(steps, i, obs, exp):
     if obs["features"]:
         return "child feature differs from parent's selection: " + \
             obs["features"][0].split(": ")[1]
+    if (obs["views"] != e["views"] or obs["manvis"] != e["manvis"]
+            or obs["sel"] != e["sel"]) and edit_after_settemp(steps[:i]):
+        return LOST
     if obs["views"] != e["views"]:
         return "child events are not the parent's selection (after %s)" \
             % recent
     if obs["manvis"] != e["manvis"]:
-        if edit_after_settemp(steps[:i]):
-            return LOST
         return "manual exclusions not kept in root ids (after %s)" % recent
     if obs.get("temp") != e.get("temp"):
         return "temporary feature assigned through a level is wrong at " \
